@@ -806,7 +806,7 @@ func c04Gen(tier string, seed uint64, out *bufio.Writer) {
 	c04GenScripts(out)
 	n := 1500
 	if tier == "thorough" {
-		n = 25000
+		n = 50000
 	}
 	for i := 0; i < n; i++ {
 		c04GenHistory(r, out, !r.chance(1, 5))
